@@ -49,15 +49,17 @@ PROPS = {
                lambda c: sched.sched_sibling(c, ('feedback',)),
                lambda c: sched.sched_handover(c, (sched.FB,)),
                lambda c: sched.sched_pair(c, (sched.FB,)),
-               lambda c: sched.key_rebind(c, (sched.FB,))],
-        decided=['documented defaults run', 'termination (progress guard)',
+               lambda c: sched.key_rebind(c, (sched.FB,)), interp.fb_epoch],
+        decided=['the state at an epoch inside a sampling interval is predicted with the elapsed '
+                 'fraction of the pending increment',
+                 'documented defaults run', 'termination (progress guard)',
                  'every increment handed to the integrator exactly once',
                  'epoch list de-duplicated, clipped to [start, end], sentinel last',
                  'epoch cursor advanced exactly once per processed epoch under a strict test',
                  'no epoch overtaken (drain before forced progress) => exactly once, in order',
                  'one innovation and one own-time stamp per available sample'],
-        undecided=['finiteness of the numerical tables', 'accuracy of the state at which an '
-                   'epoch is processed'],
+        undecided=['finiteness of the numerical tables', 'numerical accuracy of the predicted '
+                   'state within a sampling interval (linear-in-time scaling of the increment)'],
         assumptions=['sample time index strictly increasing (input precondition)']),
     'C10': dict(
         rules=[lambda c: sched.def_path(c, (sched.FF,)),
@@ -197,7 +199,7 @@ PROPS = {
     'C12': dict(
         rules=[layout.est_rules, sensor.sm_accum, sensor.sm_sign,
                lambda c: sched.sched_handover(c, (sched.FB,)), kal.q_psd, idxdom.idx_domain,
-               interp.interp_rules],
+               interp.interp_rules, interp.fb_epoch],
         decided=['both filters reset both sensor models before any use (re-run reproducibility)',
                  'feedback effects (set_pva, update_estimates, correct) only inside the '
                  'measurement-due block: with no epoch in the span the loop is plain integration '
